@@ -14,5 +14,6 @@ func main() {
 	hx.Main(map[string]func(*hx.Ctx) error{
 		"probe":        driveProbe,
 		"stubdispatch": driveDispatch,
+		"stublife":     driveLife,
 	})
 }
